@@ -38,7 +38,17 @@ def c05Holds (j : J) : Option J := do
                         decide (vecs.eraseDups.length = vecs.length))
   pure (J.l [toJ (decide (outs.length ≥ 1) && okEach && okAll), toJ (optScore t n), toJ opt.length])
 
+/-- [S, D, keep (elements), noTiePruning] -> rows / objective of the CPLEX model of the sub-problem obtained by projecting
+    the dataset on the kept elements (rankings that lose all their elements stay as empty rankings) -/
+def ilpSubRows (j : J) : Option J := do
+  let (S, D, keep, active) ← (fromJ j : Option (Scheme × Dataset × List Elem × Bool))
+  let sub := projectKeepAll D keep
+  let t := costMatrix S (getPositions sub)
+  let n := t.length
+  let rows := rowsCplex t n 0 active
+  pure (J.l [J.l (rows.map rowJ), J.l ((objective t n).map fun p => J.l [varJ p.1, J.n p.2]), toJ (univOf sub)])
+
 def exactOps : List (String × (J → Option J)) :=
-  [("ilp.rows", ilpRows), ("ilp.decode", ilpDecode), ("c05.holds", c05Holds)]
+  [("ilp.rows", ilpRows), ("ilp.subrows", ilpSubRows), ("ilp.decode", ilpDecode), ("c05.holds", c05Holds)]
 
 end Corankco.Driver
